@@ -625,7 +625,8 @@ pub fn run_property(mut spec: PropertySpec, tier: Tier, seed: u64) -> i32 {
     // 1. committed regression replays must pass
     let mut regress_run = 0u64;
     let rdir = Path::new(&verif_dir()).join("regress").join(spec.id);
-    if let Ok(rd) = std::fs::read_dir(&rdir) {
+    // VERIF_NO_REGRESS: development switch for measuring what the generators find on their own
+    if let (Ok(rd), false) = (std::fs::read_dir(&rdir), std::env::var("VERIF_NO_REGRESS").is_ok()) {
         let mut files: Vec<PathBuf> = rd
             .filter_map(|e| e.ok().map(|e| e.path()))
             .filter(|p| p.extension().map(|x| x == "json").unwrap_or(false))
